@@ -272,7 +272,7 @@ func runProperty(r *Runner, p *Property, tier string, seed int, t0 time.Time) in
 	var known []string
 	backends := map[string]int{}
 	var lines []string
-	replayDir := filepath.Join(verifDir(), "replays", p.ID)
+	replayDir := filepath.Join(outDir(), "replays", p.ID)
 	for _, e := range entries {
 		total++
 		if e.Status == "discharged" {
@@ -390,9 +390,10 @@ func runProperty(r *Runner, p *Property, tier string, seed int, t0 time.Time) in
 	}
 	ev := evidence{PropertyID: p.ID, Tier: tier, Seed: seed, Level: level, Coverage: cov,
 		Assumptions: append(append([]string{}, commonAssume...), p.Assume...), WallS: round3(time.Since(t0).Seconds()), Violations: violations}
-	os.MkdirAll(filepath.Join(verifDir(), "evidence"), 0o755)
+	evDir := filepath.Join(outDir(), "evidence")
+	os.MkdirAll(evDir, 0o755)
 	b, _ := json.MarshalIndent(ev, "", " ")
-	os.WriteFile(filepath.Join(verifDir(), "evidence", p.ID+".json"), append(b, '\n'), 0o644)
+	os.WriteFile(filepath.Join(evDir, p.ID+".json"), append(b, '\n'), 0o644)
 	fmt.Printf("%s [%s]: %d/%d obligations discharged, %d functions, %d cut points, %d paths, %d solver queries, %.1fs\n",
 		p.ID, tier, discharged, total, len(fstats), cuts, paths, queries, time.Since(t0).Seconds())
 	for _, l := range lines {
@@ -520,4 +521,15 @@ func findingMatches(pat, name string) bool {
 		pos += j + len(part)
 	}
 	return strings.HasSuffix(name, parts[len(parts)-1])
+}
+
+// outDir: where evidence and replay files go: /verif, unless the run is against a scratch copy of
+// the repository (RJV_REPO), whose results must never be mistaken for evidence about /repo.
+func outDir() string {
+	if d := os.Getenv("RJV_REPO"); d != "" && d != "/repo" {
+		o := filepath.Join(os.TempDir(), "rjv-scratch-out")
+		os.MkdirAll(o, 0o755)
+		return o
+	}
+	return verifDir()
 }
